@@ -93,7 +93,7 @@ func e2eCase(c *fw.Ctx, r *fw.Rand, idx int) {
 	defer func() {
 		var cw sync.WaitGroup
 		for _, p := range peers {
-			if p.Node != nil {
+			if p != nil && p.Node != nil {
 				cw.Add(1)
 				go func(p *sim.NetPeer) { defer cw.Done(); p.Node.Close() }(p)
 			}
@@ -132,8 +132,35 @@ func e2eCase(c *fw.Ctx, r *fw.Rand, idx int) {
 		}
 		return out
 	}
-	adds := 6
+	adds := 8
+	// in half of the cases a member (not the one adding, not the leader) goes away
+	// before the last two adds while the monitors still call it healthy: block puts
+	// to it fail at the RPC level (unreachable destination)
+	down := -1
+	downFrom := adds
+	if r.Intn(2) == 0 {
+		downFrom = adds - 4
+	}
 	for a := 0; a < adds; a++ {
+		if a == downFrom {
+			lead := -1
+			for i, p := range peers {
+				if l, e := p.Node.Consensus.Leader(ctx); e == nil && l == ids[i] {
+					lead = i
+				}
+			}
+			for i := range peers {
+				if i != lead && lead >= 0 {
+					down = i
+					break
+				}
+			}
+			if down >= 0 {
+				c.Journal("e2e case %d: p%d stops", idx, down)
+				peers[down].Node.Close()
+				peers[down].Node = nil
+			}
+		}
 		p := api.DefaultAddParams()
 		chunk := []int{32, 100, 1024}[r.Intn(3)]
 		p.Chunker = fmt.Sprintf("size-%d", chunk)
@@ -153,6 +180,9 @@ func e2eCase(c *fw.Ctx, r *fw.Rand, idx int) {
 			t.dir["uniq"] = &tree{file: append(uniq, genBytes(r, chunk*3)...)}
 		}
 		at := r.Intn(n)
+		if at == down {
+			at = (at + 1) % n
+		}
 		rf := r.Pick("everywhere", "1", "2", "1-3", "user")
 		switch rf {
 		case "everywhere":
@@ -167,6 +197,19 @@ func e2eCase(c *fw.Ctx, r *fw.Rand, idx int) {
 			p.ReplicationFactorMin, p.ReplicationFactorMax = 1, 1
 			p.UserAllocations = []peer.ID{ids[r.Intn(n)]}
 		}
+		if down >= 0 {
+			// several destinations, one of them unreachable
+			rf = r.Pick("2", "1-3", "3")
+			p.UserAllocations = nil
+			switch rf {
+			case "2":
+				p.ReplicationFactorMin, p.ReplicationFactorMax = 2, 2
+			case "1-3":
+				p.ReplicationFactorMin, p.ReplicationFactorMax = 1, 3
+			case "3":
+				p.ReplicationFactorMin, p.ReplicationFactorMax = 2, 3
+			}
+		}
 		p.Shard = r.Intn(3) == 0
 		p.Local = !p.Shard && r.Intn(4) == 0
 		if p.Shard {
@@ -177,7 +220,12 @@ func e2eCase(c *fw.Ctx, r *fw.Rand, idx int) {
 			p.ShardSize = uint64(chunk*r.Range(6, 30) + 2000)
 		}
 		ft := fault{}
-		switch r.Intn(4) {
+		sel := r.Intn(4)
+		if down >= 0 {
+			sel = 3
+			p.Local = false
+		}
+		switch sel {
 		case 0:
 			ft = fault{peer: r.Intn(n), at: r.Range(1, 6)}
 		case 1:
@@ -211,7 +259,7 @@ func e2eCase(c *fw.Ctx, r *fw.Rand, idx int) {
 			}
 		}
 		fmu.Unlock()
-		c.Eval("e2e/" + cfg + fmt.Sprintf("/ok=%v", err == nil))
+		c.Eval("e2e/" + cfg + fmt.Sprintf("/unreachable-member=%v/ok=%v", down >= 0, err == nil))
 		detail := map[string]interface{}{"cfg": cfg, "at": at, "fault": fmt.Sprintf("%+v reached=%v", ft, reached), "err": fmt.Sprint(err), "root": root.String()}
 		// deliveries of this add
 		after := snapshot()
@@ -225,8 +273,11 @@ func e2eCase(c *fw.Ctx, r *fw.Rand, idx int) {
 			}
 		}
 		// the pinset as the leader holds it
-		lead := 0
+		lead := at
 		for i, p := range peers {
+			if p.Node == nil {
+				continue
+			}
 			if l, e := p.Node.Consensus.Leader(ctx); e == nil && l == ids[i] {
 				lead = i
 			}
@@ -245,7 +296,7 @@ func e2eCase(c *fw.Ctx, r *fw.Rand, idx int) {
 			continue // the generated shard size is below one of this tree's blocks: not an add the property speaks about
 		}
 		if err != nil {
-			if ft.at == 0 || !reached {
+			if (ft.at == 0 || !reached) && down < 0 {
 				c.Violation("C13/e2e/add-failed-without-fault", "an add failed although no block put was made to fail: "+err.Error(), detail)
 				continue
 			}
@@ -265,6 +316,7 @@ func e2eCase(c *fw.Ctx, r *fw.Rand, idx int) {
 			continue
 		}
 		faulty := ft.at > 0 && reached
+		rpcFault := down >= 0
 		// units: (pin, blocks under it)
 		type unit struct {
 			what   string
@@ -336,7 +388,13 @@ func e2eCase(c *fw.Ctx, r *fw.Rand, idx int) {
 			}
 			isHolder := map[int]bool{}
 			for _, h := range holders {
+				if isHolder[idxOf[h]] {
+					c.Violation("C13/e2e/allocations-list-a-peer-twice/"+u.what, fmt.Sprintf("the pin's allocations name p%d twice: %v", idxOf[h], idxList(idxOf, holders)), detail)
+				}
 				isHolder[idxOf[h]] = true
+			}
+			if rpcFault && isHolder[down] {
+				faulty = true // an allocated destination was unreachable
 			}
 			if p.Local {
 				// everything at the adding peer, nothing sent elsewhere
@@ -383,6 +441,14 @@ func e2eCase(c *fw.Ctx, r *fw.Rand, idx int) {
 		}
 	}
 	c.Sample(map[string]interface{}{"family": "e2e", "peers": n, "adds": adds})
+}
+
+func idxList(idxOf map[peer.ID]int, ps []peer.ID) []int {
+	var out []int
+	for _, p := range ps {
+		out = append(out, idxOf[p])
+	}
+	return out
 }
 
 func sortedIdx(m map[int]bool) []int {
